@@ -85,6 +85,8 @@ package resource
 //@   inline
 //@ func (Version).Equal
 //@   inline
+//@ func (Finalizers).Has
+//@   inline
 //@ func (Finalizers).Empty
 //@   inline
 
@@ -121,9 +123,6 @@ package resource
 //@   props C14 C11
 //@   pure
 //@   ensures result != nil
-//@ func NotMatches
-//@   props C14 C11
-//@   pure
 //@ func IDRegexpMatch
 //@   props C14 C11
 //@   pure
